@@ -196,8 +196,17 @@ func concBody(x *Exec, raw json.RawMessage) {
 				x.Fail("weighted-size-mismatch", "WeightedSize@"+p.Label, "WeightedSize() = %d but the entries present weigh %d", ws, sum)
 			}
 		}
-		if es := c.EstimatedSize(); es != len(contents) {
-			x.Fail("estimated-size-mismatch", "EstimatedSize@"+p.Label, "EstimatedSize() = %d but iteration yields %d entries", es, len(contents))
+		// an expired entry that awaits its sweep (less than a tick old) is legitimately counted by the estimate
+		unswept := 0
+		if p.Cfg.Expiry != "" {
+			for _, n := range c.VerifRawTable() {
+				if _, vis := c.GetEntryQuietly(n.Key); !vis {
+					unswept++
+				}
+			}
+		}
+		if es := c.EstimatedSize(); es != len(contents)+unswept {
+			x.Fail("estimated-size-mismatch", "EstimatedSize@"+p.Label, "EstimatedSize() = %d but iteration yields %d entries (+%d expired ones awaiting their sweep)", es, len(contents), unswept)
 		}
 		if p.Cfg.MaxSize > 0 || p.Cfg.MaxWeight > 0 {
 			for _, name := range []string{"coldest", "hottest"} {
@@ -477,7 +486,12 @@ func concBody(x *Exec, raw json.RawMessage) {
 	}
 
 	if has(p.Oracles, "ledger") && !p.Cfg.NoHandlers {
-		checkLedger(x, r, p, append(append([]opRec{}, setupRecs...), flat(recs)...), contents)
+		// present = physically in the table: an expired entry awaiting its sweep has not been removed (and reported) yet
+		physical := map[int]int{}
+		for _, n := range c.VerifRawTable() {
+			physical[n.Key] = n.Value
+		}
+		checkLedger(x, r, p, append(append([]opRec{}, setupRecs...), flat(recs)...), physical)
 	}
 }
 
